@@ -311,10 +311,19 @@ func checkOBJFiles(r *ev.Run, tris []*model3d.Triangle, c meshCase) {
 	if len(tris) == 0 {
 		return // the palette quantiser needs at least one colour
 	}
-	for _, size := range []int{1, 2, 3} {
+	// as many distinct colours as faces: with more colours than texels every row of the palette is in use
+	manyCol := func(t *model3d.Triangle) [3]float64 {
+		h := math.Abs(t[0].X*0.37+t[1].Y*0.11+t[2].Z*0.23+t[1].X*0.05+t[2].Y*0.07) + 0.01
+		return [3]float64{h - math.Floor(h), math.Mod(h*7, 1), math.Mod(h*13, 1)}
+	}
+	for si, size := range []int{1, 2, 3, 2, 3} {
+		colF := triCol
+		if si >= 3 {
+			colF = manyCol
+		}
 		buf.Reset()
 		var werr error
-		if p := ev.Try(func() { werr = model3d.WriteQuantizedMaterialOBJ(&buf, tris, size, triCol) }); p != "" {
+		if p := ev.Try(func() { werr = model3d.WriteQuantizedMaterialOBJ(&buf, tris, size, colF) }); p != "" {
 			r.Violation("objfile/WriteQuantizedMaterialOBJ/panic", fmt.Sprintf("texture size %d: panic: %s", size, p), c)
 			continue
 		}
